@@ -11,6 +11,8 @@ prop("C13",
      min_obs={"quick": {"bins_checked_trivial": 10000, "bins_checked_projdata": 100000, "bins_checked_attenuation": 100000,
                         "bins_checked_components": 50000, "bins_checked_calibrated": 30000, "bins_checked_chained": 50000,
                         "efficiency_agreements": 100000, "apply_undo_roundtrips": 1000000, "symmetry_groupings_compared": 5000,
+                        "alternating_symmetry_groupings_runs": 15000, "alternating_symmetry_groupings_same_basic_viewgram_under_both": 200000,
+                        "cfg_complementary_minimal_pet_symmetry_groupings": 2500,
                         "projdata_overload_compared": 5000, "chains_len1": 100, "chains_len2": 100, "chains_len3": 100,
                         "attenuation_tight_bins": 300000, "attenuation_physical_bins": 150000,
                         "attenuation_physical_bins_through_cylinder": 100000,
@@ -22,7 +24,10 @@ prop("C13",
                            "attenuation_physical_bins": 1500000, "chains_len1": 1000, "chains_len2": 1000, "chains_len3": 1000,
                            "symmetry_groupings_compared": 50000, "cfg_tof_data_nontof_factors": 1000,
                            "cfg_default_ray_tracing_projector": 300}},
-     rule=("case = one generated (scanner, sampling, normalisation object, data) configuration: cylindrical (and for the classes "
+     rule=("(clause added in round 4: for a random pair of the object's symmetry groupings - among them, in 40% of the cylindrical cases, "
+           "the complementary minimal pair swap-segment-only / 180-degrees-only - the related viewgrams of every basic view/segment are "
+           "processed under grouping A and immediately afterwards under grouping B by the SAME object; both complete results must equal "
+           "the single-grouping result bit for bit.)  case = one generated (scanner, sampling, normalisation object, data) configuration: cylindrical (and for the classes "
            "that do not project: blocks-on-cylindrical) scanner with 8..32/48 detectors and 1..4/5 rings, span, ring-difference, view "
            "mashing, tangential truncation, arc-correction, TOF (mashed) or non-TOF data, all held in ProjDataInMemory; object = "
            "Trivial | FromProjData (random positive factors, non-TOF factors on TOF data, factors with more segments than the data) | "
